@@ -6,7 +6,7 @@ Definition Num_F : Num := {|
   T := float;
   add := PrimFloat.add; sub := PrimFloat.sub; mul := PrimFloat.mul; div := PrimFloat.div;
   nabs := PrimFloat.abs; nsqrt := PrimFloat.sqrt;
-  gtb := fun x y => PrimFloat.ltb y x; ltb := PrimFloat.ltb;
+  gtb := fun x y => PrimFloat.ltb y x; ltb := PrimFloat.ltb; eqb := PrimFloat.eqb;
   zero := 0%float; one := 1%float; two := 2%float; half := 0.5%float
 |}.
 
